@@ -58,7 +58,7 @@ PROPS["C18"] = {
     "rule": "both stores (generic lifecycle store, per-event store): exhaustively every sequence of <=4 (thorough: <=5) operations over a 12-op alphabet "
             "(On/Once of 3 handlers, Off of one, two (both orders), absent and no handlers, OffAll, occurrence) followed by an occurrence; random histories of "
             "<=40 ops over 3 events x 5 handlers; 2..64 goroutines racing occurrences over Once handlers; the exported On/Once/Off methods of Manager and client "
-            "socket. Non-trivial = >=2 occurrences or a multi-handler Off; distinct by request line.",
+            "socket. Non-trivial = >=2 occurrences or a multi-handler Off; distinct by request line. Added after seeded changes: the slice an occurrence was given is read again after the rest of the history, for 0..12 On handlers x 0..2 pending Once handlers x five continuations; public OffEvent with a never-registered handler and with a nil function value.",
     "trusted_base": EXT + ["every store method is one critical section (whole body under its mutex): an interleaving of concurrent calls is a sequence of the model's atomic operations; sampled by the concurrent rounds"],
     "assumptions": ["handler identity is what the store compares: pointer (lifecycle store) / code pointer (event store); see known findings D12, D13"],
     "partial": ["public lifecycle Off*(f) glue is a recorded finding (D12); closure aliasing of OffEvent is a recorded finding (D13)"],
@@ -167,7 +167,7 @@ PROPS["C17"] = {
     "rule": "the full request matrix method{GET,POST,PUT,DELETE,OPTIONS} x EIO{absent,3,4,5,junk} x transport{absent,polling,websocket,junk} x sid{absent,unknown,live,"
             "closed} x {b64,j} flags against a freshly prepared real eio.Server (open and closed), observing status, JSON error code, sessions created, packets delivered to "
             "and liveness of a pre-existing session; Server.Close invoked from the Authenticator (between the closed check and store.set) and racing 2..15 concurrent "
-            "handshakes; 10^5 (thorough 10^6) generated session ids. Non-trivial = every matrix cell; distinct by request line + flags.",
+            "handshakes; 10^5 (thorough 10^6) generated session ids. Non-trivial = every matrix cell; distinct by request line + flags. Added after seeded changes: sessions ended by a client CLOSE packet and by an undecodable payload (sid=closed:client / closed:garbage); a handshake served from the OnClose callback of a session that Server.Close is closing.",
     "trusted_base": EXT + ["net/http/httptest recorder stands in for the network; websocket handshakes are not completed by it (cells that reach the websocket handshake are "
                            "compared up to 'handshake attempted')"],
     "assumptions": ["crypto/rand produces bytes; no uniqueness is assumed from it (distinctness comes from the sequence number and store.set's check)"],
@@ -205,7 +205,7 @@ PROPS["C15"] = {
             "(equality with the model for jitter 0, range predicates otherwise); a real Manager on the in-memory network under virtual time: ReconnectionAttempts 0..5 x "
             "server unreachable for 0..6 attempts or for ever x {polling, websocket}, every reconnect_* event with its exact instant; 40 (thorough 1500) random mixes of "
             "volatile / non-volatile / ack-carrying emits placed before the first connection, right after Connect(), from the open handler (between CONNECT and its reply), "
-            "while up and during an outage, with wire order observed by a decoder tap. Non-trivial = each configuration; distinct by request line / description.",
+            "while up and during an outage, with wire order observed by a decoder tap. Non-trivial = each configuration; distinct by request line / description. Added after seeded changes: ack-carrying emits with a 50 ms timeout and 0..2 binary attachments made offline among other offline emits, timing out before Connect: the others arrive once, in wire order, the connection survives, the callback gets the timeout once.",
     "trusted_base": EXT + ["go1.26.8 testing/synctest virtual clock", "math.Pow / float64 conversions: the model takes them as parameters with three recorded facts (monotone, "
                            "exact up to 2^53, amd64 out-of-range conversion)", "math/rand cannot be seeded: jittered delays are checked against the proved interval only"],
     "assumptions": ["over long-polling a cut TCP connection does not end the session while the server stays reachable; that configuration is judged by the predicates, not by the model's instants"],
@@ -225,7 +225,7 @@ PROPS["C14"] = {
             "peer that answers with a random latency below the timeout until a silence starting at every 500 ms (thorough 100 ms) grid point over three periods, plus "
             "unsolicited PONGs; PING instants and the close instant are compared with the model. System: real sio server and client stacks on the in-memory network, "
             "black-holed in both / one direction at random grid points on polling, websocket and during the upgrade, and live peers idle for 50 periods with application "
-            "traffic at a random phase. Non-trivial = at least one PONG/PING exchanged before the silence; distinct by request line / description.",
+            "traffic at a random phase. Non-trivial = at least one PONG/PING exchanged before the silence; distinct by request line / description. Added after seeded changes: live connections whose upgrade runs over a slow WebSocket uplink (latency 0.34-0.49 x pingInterval, pingTimeout = 2 x latency + 1 s).",
     "trusted_base": EXT + ["go1.26.8 testing/synctest virtual clock (instants are exact; 'scheduling slack' is outside the model)"],
     "assumptions": ["a PONG arriving at exactly the timeout instant may go either way (select); generated scripts avoid the tie"],
     "level_text": "Lean 4 theorems over executable models of the two heartbeat loops, for every pingInterval, pingTimeout and horizon: a silent peer is closed exactly "
@@ -293,7 +293,7 @@ PROPS["C03"] = {
             "client stacks on the in-memory network, 1..50 acks outstanding at once, reply delays on both sides of the timeout, 0..3 attachments, with and without timeout, "
             "the replying handler calling its ack function once or twice, both directions, polling / websocket / upgrade, emitter cut off in mid-flight; the emitter not "
             "connected (timeout while the packet with 0..3 attachments is buffered offline; connecting before / after the timeout / never); a protocol-level peer that "
-            "repeats, invents and garbles ACK frames. Non-trivial = every scenario; distinct by description.",
+            "repeats, invents and garbles ACK frames. Non-trivial = every scenario; distinct by description. Added after seeded changes: a late reply to an event of the client's previous server socket sent on its new socket (both transports); a reply delivered from inside the socket's timeout function, i.e. between the timer's decision and its callback.",
     "trusted_base": EXT + ["go1.26.8 testing/synctest virtual clock", "the atomic steps of the model are the critical sections of handler.go (handler mutex) and of the sockets (ack map mutex)"],
     "assumptions": ["when reply and timer are runnable at the same instant either order is accepted (both are orders of the model)"],
     "level_text": "Lean 4 theorems over a transition system of one acknowledgement (ack map entry, called / timedOut flags, timer), for every interleaving of the timer with any "
@@ -312,7 +312,7 @@ PROPS["C12"] = {
             "data}, each middleware slow and joining a room on the candidate socket before its verdict, default and custom namespace, 1..8 clients connecting concurrently, "
             "polling and websocket; observed: per-candidate invocation order, client connect / connect_error payload, namespace socket list, adapter rooms of the candidate, "
             "connection handler counts. Event middlewares: 8 accept/reject chains x 5 handler signatures (no args, string, int, string+int, int+ack). Non-trivial = every chain; "
-            "distinct by description.",
+            "distinct by description. Added after seeded changes: 1..3 handlers per event; the namespace lists and broadcasts while the chain (which joined the candidate to a room) is still running.",
     "trusted_base": EXT + ["go1.26.8 testing/synctest"],
     "assumptions": ["recovered sessions skip the chain unless UseMiddlewares is set (documented configuration; explicit hypothesis of admission_gated)"],
     "level_text": "Lean 4 theorems over the admission decision (Namespace.add / runMiddlewares / doConnect) and the event-middleware gate, for every chain: connected (listed, own "
@@ -331,7 +331,7 @@ PROPS["C05"] = {
             "namespaces (/, /a, /ab, /a/b, /ü, one that does not exist, one whose middleware rejects) over one connection to the real server (polling and websocket); the "
             "server-side effects in virtual-time order are compared with the model. Real Go clients: 1..4 namespaces drawn from {/, '', /a, /ab, /a/b, a, /ü} on shared and "
             "separate connections, CONNECT replies delayed per namespace, three ack-carrying emits per namespace, one broadcast per namespace, one namespace disconnected "
-            "from either side. Non-trivial = every script / scenario; distinct by request line / description.",
+            "from either side. Non-trivial = every script / scenario; distinct by request line / description. Added after seeded changes: events, acknowledgements and broadcasts with binary attachments in every namespace scenario; a namespace that broadcasts while the middleware (which joined the candidate to a room) is still deciding - judged on the client's wire and by Sockets()/FetchSockets().",
     "trusted_base": EXT + ["go1.26.8 testing/synctest"],
     "assumptions": ["CONNECT_ERROR replies are compared as a count per script (they are read from the peer at the end)"],
     "level_text": "Lean 4 theorems over the dispatch decision of a server connection, for every packet and every packet sequence: whatever a packet for namespace n causes "
@@ -351,7 +351,7 @@ PROPS["C06"] = {
             "Disconnect(false), Disconnect(true), client DISCONNECT, Server.Close, undecodable packet} x phase {while a namespace middleware runs, connected idle, in the middle "
             "of a burst in both directions, during the polling->websocket upgrade}, pairs of causes at the same instant, and a scripted session whose every client connection is "
             "cut after k bytes for k = 1, 38, 75, .. (thorough: step 5) on polling, websocket and the upgrade; observed per socket: disconnecting / disconnect handler counts, order "
-            "and reasons, namespace socket list, adapter rooms. Non-trivial = every scenario in which a socket had connected; distinct by description.",
+            "and reasons, namespace socket list, adapter rooms. Non-trivial = every scenario in which a socket had connected; distinct by description. Added after seeded changes: two namespaces on one connection, the socket of / with an 800 ms disconnecting handler, the CONNECT of /b inside its middleware when the connection ends (cut, server close, client close), the middleware returning 0.1 / 0.4 / 1.2 s later. A connection handler that finishes its registrations at or after the virtual instant of the cause ran concurrently with the close (finding D35).",
     "trusted_base": EXT + ["go1.26.8 testing/synctest", "every label of the model is one critical section / call of server_conn.go, namespace.go, server_socket.go"],
     "assumptions": ["scenarios that make several goroutines close one WebSocket at once are run over long-polling only: nhooyr's closing handshake blocks inside the socket's "
                     "sync.Once and a synctest bubble cannot advance its clock past goroutines queued on that mutex (limitation of the rig, stated in DESIGN.md)",
@@ -373,7 +373,7 @@ PROPS["C07"] = {
             "and bursts of 2..7, random gaps) from the first instant, a burst fired from the UpgradeDone callback; upgrade attempts: unobstructed, websocket refused, stalled "
             "(black-holed from the start until the upgrade timeout), cut inside the HTTP upgrade request (20..170 bytes), cut inside / right after the probe PING frame and "
             "inside the UPGRADE frame; observed: OnPacket sequences on both sides, UpgradeDone, TransportName on both sides, close reasons, survival of two heartbeat periods "
-            "afterwards. Non-trivial = every scenario; distinct by description.",
+            "afterwards. Non-trivial = every scenario; distinct by description. Added after seeded changes: slowPost (real time: a POST under way when the probe is answered outlasts the upgrade timeout) and slowWS (340-490 ms delay-line latency on the new transport, pingInterval 1 s: the first heartbeat falls due between the probe's answer and the arrival of the UPGRADE packet).",
     "trusted_base": EXT + ["go1.26.8 testing/synctest", "nhooyr.io/websocket preserves message boundaries and order per connection; net/http long-polling"],
     "assumptions": ["WebTransport shares upgradeTo / finishUpgradeTo; only the model and the framing (C11) cover it", "order across the swap is not demanded (C02 is about settled transports)"],
     "level_text": "Lean 4 theorems over a message-level transition system of both directions (polling queue, poll response in flight, POST in flight, the two websocket streams "
